@@ -94,7 +94,7 @@ def _t(x):
     return x.tensor() if isinstance(x, pp.LieTensor) else x
 
 
-def _rand_group(lt, shape, rs, dtype):
+def _rand_group(lt, shape, rs, dtype, layout=False):
     n = int(np.prod(shape)) if len(shape) else 1
     q = rs.randn(n, 4); q /= np.linalg.norm(q, axis=1, keepdims=True)
     t = rs.randn(n, 3); s = np.exp(0.3 * rs.randn(n, 1))
@@ -110,10 +110,29 @@ def _rand_group(lt, shape, rs, dtype):
         elif kind[i] == 2:
             q[i] = [0.0, 0.0, 0.0, 1.0]; s[i] = 1.0; t[i] = 0.0     # the identity element
     d = {"SO3": q, "SE3": np.concatenate([t, q], 1), "RxSO3": np.concatenate([q, s], 1), "Sim3": np.concatenate([t, q, s], 1)}[lt]
-    return pp.LieTensor(torch.tensor(d, dtype=tu.TD[dtype]).reshape(tuple(shape) + (d.shape[1],)), ltype=tu.LT[lt])
+    t_ = torch.tensor(d, dtype=tu.TD[dtype]).reshape(tuple(shape) + (d.shape[1],))
+    return pp.LieTensor(_laid_out(t_, rs) if layout else t_, ltype=tu.LT[lt])
 
 
-def _rand_alg(lt, shape, rs, dtype, scale=0.7):
+def _laid_out(t, rs):
+    """the same values in another memory layout: contiguous (1/2), batch dimensions stored in reversed order (a permuted view,
+    1/4) or every other row of a twice as long buffer (a strided view, 1/4).  Memory layout is an input dimension of every
+    operation: `out=` buffers, view() / reshape() of intermediates and in-place writes behave differently on non-contiguous
+    operands (seed C02d: SE3 Log wrote its translation into a reshape copy when the batch dimensions were permuted)."""
+    mode = int(rs.randint(0, 4))
+    nb = t.dim() - 1
+    if mode == 2 and nb >= 2 and t.numel() > 0 and sum(1 for e in t.shape[:-1] if e > 1) >= 2:
+        perm = list(range(nb))[::-1] + [nb]
+        base = t.permute(*perm).contiguous()              # stored with the batch dimensions reversed
+        return base.permute(*perm)                        # ... and viewed in the requested order (perm is an involution)
+    if mode == 3 and nb >= 1 and t.shape[0] > 0:
+        big = torch.zeros((2 * t.shape[0],) + tuple(t.shape[1:]), dtype=t.dtype)
+        big[::2] = t
+        return big[::2]
+    return t
+
+
+def _rand_alg(lt, shape, rs, dtype, scale=0.7, layout=False):
     n = int(np.prod(shape)) if len(shape) else 1
     d = scale * rs.randn(n, R.ADIM[lt])
     if lt in ("rxso3", "sim3"):
@@ -127,11 +146,12 @@ def _rand_alg(lt, shape, rs, dtype, scale=0.7):
             d[i, r0:r0 + 3] = 0.0                       # rotation part exactly 0
         elif kind[i] == 2:
             d[i, :] = 0.0                               # the zero element
-    return pp.LieTensor(torch.tensor(d, dtype=tu.TD[dtype]).reshape(tuple(shape) + (R.ADIM[lt],)), ltype=tu.LT[lt])
+    t_ = torch.tensor(d, dtype=tu.TD[dtype]).reshape(tuple(shape) + (R.ADIM[lt],))
+    return pp.LieTensor(_laid_out(t_, rs) if layout else t_, ltype=tu.LT[lt])
 
 
-def _rand_lie(lt, shape, rs, dtype):
-    return _rand_group(lt, shape, rs, dtype) if lt in R.GROUPS else _rand_alg(lt, shape, rs, dtype)
+def _rand_lie(lt, shape, rs, dtype, layout=False):
+    return _rand_group(lt, shape, rs, dtype, layout=layout) if lt in R.GROUPS else _rand_alg(lt, shape, rs, dtype, layout=layout)
 
 
 _REF0 = {}
@@ -243,12 +263,12 @@ class BroadcastBinary(Sub):
         h = dhash(repr((sx, sy, lt)))
         dtype = "float64" if h % 2 == 0 else "float32"
         rs = np.random.RandomState(h % (2 ** 31))
-        X = _rand_group(lt, sx, rs, dtype)
-        Y = _rand_group(lt, sy, rs, dtype)
-        a = _rand_alg(alt, sy, rs, dtype)
+        X = _rand_group(lt, sx, rs, dtype, layout=True)
+        Y = _rand_group(lt, sy, rs, dtype, layout=True)
+        a = _rand_alg(alt, sy, rs, dtype, layout=True)
         p3 = torch.tensor(rs.randn(*(tuple(sy) + (3,))), dtype=tu.TD[dtype])
         p4 = torch.tensor(rs.randn(*(tuple(sy) + (4,))), dtype=tu.TD[dtype])
-        V = _rand_alg(alt, sx, rs, dtype)                                                       # algebra element as LEFT operand
+        V = _rand_alg(alt, sx, rs, dtype, layout=True)                                          # algebra element as LEFT operand
         ta = torch.tensor(0.7 * rs.randn(*(tuple(sy) + (R.ADIM[alt],))), dtype=tu.TD[dtype])     # plain Tensor of algebra width
         tw = torch.tensor(0.5 * rs.randn(*(tuple(sy) + (R.GDIM[lt],))), dtype=tu.TD[dtype])      # ... of group width (documented: the rest is ignored)
         al = ALPHAS[(h >> 8) % len(ALPHAS)]
@@ -257,6 +277,7 @@ class BroadcastBinary(Sub):
             rec.nt((tuple(sx), tuple(sy), lt))
         rec.label(lt, "rank%d" % len(out), "empty" if 0 in out else "nonempty", "oprank%d" % max(len(sx), len(sy)), "alpha=%s" % al)
         everything = (X, Y, a, p3, p4, V, ta, tw)
+        rec.label("layout:" + ("noncontiguous_operand" if any(not _t(o).is_contiguous() for o in (X, Y, a, V)) else "contiguous"))
         snaps = [_t(o).clone() for o in everything]
         # op -> (method form, operands, expected ltype (None: plain Tensor), other documented spellings of the same op)
         table = {
@@ -333,8 +354,9 @@ class BroadcastUnary(Sub):
         dtype = "float64" if h % 2 == 0 else "float32"
         rs = np.random.RandomState(h % (2 ** 31))
         isg = lt in R.GROUPS
-        X = _rand_lie(lt, sh, rs, dtype)
+        X = _rand_lie(lt, sh, rs, dtype, layout=True)
         X0 = X.tensor().clone()
+        rec.label("layout:" + ("contiguous" if X.tensor().is_contiguous() else "noncontiguous_operand"))
         if len(sh) >= 1:
             rec.nt((tuple(sh), lt))
         rec.label(lt, "rank%d" % len(sh), "empty" if 0 in sh else "nonempty")
@@ -388,6 +410,12 @@ class BroadcastUnary(Sub):
         rec.check(isinstance(ls, torch.Size) and tuple(ls) == tuple(sh), "lshape", "lshape of a %s of lshape %s is %r" % (lt, sh, ls))
         flat = X0.reshape(-1, d)
         rev = list(reversed(sh)) if sh else [1, 1]
+        Xorig = X
+        if not X.tensor().is_contiguous():
+            # lview is documented as Tensor.view with the last dimension hidden: like view it refuses strides it cannot express
+            # (torch's rule, loud); its claims are checked on a contiguous element with the same items
+            rec.label("lview:on_contiguous_copy")
+            X = pp.LieTensor(X0.contiguous().clone(), ltype=tu.LT[lt])
         with rec.sut("lview"):
             views = {"lview(-1)": (X.lview(-1), flat), "lview(*%s)" % rev: (X.lview(*rev), X0.reshape(tuple(rev) + (d,)))}
         for nme, (v, want) in views.items():
@@ -404,6 +432,7 @@ class BroadcastUnary(Sub):
                     rec.fail("lview_size_arg", "lview(torch.Size(%s)) raised TypeError: %s" % (rev, str(e)[:200]))
             else:
                 rec.check(isinstance(v, pp.LieTensor) and v.ltype == tu.LT[lt] and torch.equal(v.tensor(), X0.reshape(tuple(rev) + (d,))), "lview_size_data", "lview(torch.Size(%s)) of a %s: wrong type / items" % (rev, lt))
+        X = Xorig
         rec.check(torch.equal(X.tensor(), X0), "mutates_input", "a unary op changed its operand")
 
 
